@@ -16,7 +16,7 @@ META = {
     "level": "exploration",
     "rule": ("case = C02-style HUGR case, package case or extension descriptor; distinct by JSON; non-trivial as in "
              "C02 (HUGRs), >= 1 module with >= 4 nodes (packages), >= 1 TypeDef and >= 1 OpDef (extensions)"),
-    "required": ["monitor:schema-hugr", "monitor:schema-package", "monitor:schema-extension",
+    "required": ["monitor:repo-test-documents", "monitor:schema-hugr", "monitor:schema-package", "monitor:schema-extension",
                  "monitor:index-sanity", "monitor:port-address", "feature:holes", "feature:order-link",
                  "feature:order-link-on-partially-connected-node", "feature:static-edge",
                  "feature:order-link-on-static-input-op", "monitor:schema-selftest", "monitor:static-port",
@@ -227,6 +227,17 @@ def run(ctx):
 
     if ctx.shard == 0:
         ctx.guard("selftest", None, selftest, ctx)
+    if ctx.shard == 1 % ctx.nshards:
+        from vf.repo_corpus import documents
+
+        for k, c in enumerate(documents()):
+            for variant in range(2):
+                case = dict(c)
+                if variant:
+                    case["hist"] = gen_history_on(ctx.rng("repo-doc", k), 12, max_steps=12)
+                ctx.count("monitor:repo-test-documents")
+                ctx.guard("repo-doc", case, check_hugr_case, ctx, case, "program", True)
+                ctx.case("repo-doc", case, len(c["doc"]["nodes"]) >= 6)
     n = ctx.n(1200, 40000)
     every = 4 if ctx.quick else 1
     for i in ctx.mine(n):
